@@ -489,11 +489,66 @@ def default_objects_isolated(chk):
     core.reset_world()
 
 
+def tables_in_callers_order(chk):
+    """The non-mutation clause over the tables a caller may hand in: a drag table is the caller's LIST - in descending Mach
+    order, rotated, shuffled - and every computation (fire, zeroing, elevation for a target, danger space) leaves it the same
+    list of the same rows in the same order with the same contents, and answers as it does for an equal list built afresh."""
+    m = impl.pb()
+    U = m.Unit
+    core.reset_world()
+    g7 = [dict(p_) for p_ in m.TableG7]
+    rnd = random.Random(5)
+    shuffled = list(g7)
+    rnd.shuffle(shuffled)
+    orders = {"descending": list(reversed(g7)), "rotated": g7[40:] + g7[:40], "shuffled": shuffled,
+              "two_rows_swapped": g7[:10] + [g7[11], g7[10]] + g7[12:]}
+
+    def ops(calc, shot):
+        return [("fire", lambda: calc.fire(shot, U.Foot(600), U.Foot(100))),
+                ("fire_extra", lambda: calc.fire(shot, U.Foot(600), U.Foot(100), extra_data=True)),
+                ("zero", lambda: calc.set_weapon_zero(shot, U.Yard(100))),
+                ("elevation_for_target", lambda: calc.barrel_elevation_for_target(shot, U.Yard(200)))]
+
+    for name, tab in orders.items():
+        def build():
+            dm = m.DragModel(0.25, [dict(p_) for p_ in tab], U.Grain(168), U.Inch(0.308), U.Inch(1.22))
+            return m.Shot(m.Weapon(U.Inch(2), U.Inch(10)), m.Ammo(dm, U.FPS(2650)), U.Degree(1))
+        try:
+            shot = build()
+        except Exception:  # noqa  (a tree that refuses tables in this order is C09's business)
+            chk.extra.setdefault("table_orders_refused", []).append(name)
+            continue
+        calc = m.Calculator(_config={"max_calc_step_size_feet": 2.0})
+        for i, (op, f) in enumerate(ops(calc, shot)):
+            fp0 = (impl.deep_fp(shot.ammo), tuple(id(p_) for p_ in shot.ammo.dm.drag_table))
+            z0 = float(shot.weapon.zero_elevation.raw_value)
+            o = impl.outcome(f)
+            fp1 = (impl.deep_fp(shot.ammo), tuple(id(p_) for p_ in shot.ammo.dm.drag_table))
+            chk.count(1, ("table_order", name, op))
+            chk.stratum("table_in_callers_order_" + name)
+            k = {"op": op, "table_order": name, "source": "tables-in-callers-order"}
+            if fp1 != fp0:
+                chk.violation("C10.ArgumentMutated", k, {"what": "drag table of the ammunition passed in", "first_row_now": str(shot.ammo.dm.drag_table[0])})
+                break
+            fs = build()
+            fs.weapon.zero_elevation = U.Radian(z0)     # equal arguments: the stored zero the earlier zeroing wrote included
+            o2 = impl.outcome(ops(m.Calculator(_config={"max_calc_step_size_feet": 2.0}), fs)[i][1])
+
+            def fpr(x):
+                if x[0] != "ok":
+                    return (x[0], str(x[1]))
+                return tuple(scen.row_fp(r) for r in x[1].trajectory) if hasattr(x[1], "trajectory") else float(x[1].raw_value).hex()
+            if fpr(o) != fpr(o2):
+                chk.violation("C10.ResultDependsOnHistory", k, {"after": [x[0] for x in ops(calc, shot)[:i]]})
+    core.reset_world()
+
+
 def run(chk: core.Check, replay=None) -> None:
     core.use_repo()
     core.reset_world()
     thorough = chk.tier == "thorough"
     default_objects_isolated(chk)
+    tables_in_callers_order(chk)
     d = dict(GRAPH, DirtRule='"ignored"', MaxOps=4 if thorough else 3)
     body = ("SPECIFICATION Spec\nINVARIANT C10_HistoryIndependent\nPROPERTY C10_ZeroResultIndependent\nPROPERTY C10_OnlyZeroWritesZero\n"
             "INVARIANT C10_NothingElseMutates\nPROPERTY C10_FailedZeroKeepsZero\n")
